@@ -437,7 +437,7 @@ impl<'c, KD: Kind, const N: usize> MapEng<'c, KD, N> {
                     }
                 }
             }
-            Err(Pk::Overlap) => {
+            Err(p) if *p != Pk::Injected => {
                 cx.bump(S::disjoint_overlap_panics);
                 cx.bump(S::lib_panics);
                 self.lib_panicked = true;
@@ -557,7 +557,7 @@ impl<'c, KD: Kind, const N: usize> MapEng<'c, KD, N> {
             cx.log(|| format!("overflow probe {}[{w}](absent key {k}) on a full map of {N} -> {r:?}", NAMES[ep]));
             match (&r, ep) {
                 (Ok(true), 2) => cx.bump(S::checked_none),
-                (Err(Pk::Overflow), e) if e != 2 => {
+                (Err(p), e) if e != 2 && *p != Pk::Injected => {
                     cx.bump(S::lib_panics);
                     cx.bump(S::rejected_inserts);
                 }
@@ -694,7 +694,7 @@ impl<'c, KD: Kind, const N: usize> MapEng<'c, KD, N> {
                 cx.chk(P03, c == N, "with_capacity", || format!("with_capacity({c}) succeeded for N={N}"));
                 cx.chk(P03, mm.len() == 0 && mm.capacity() == N, "with_capacity", || "with_capacity gave a non-empty map".into());
             }
-            Err(Pk::CapMismatch) => {
+            Err(p) if p != Pk::Injected => {
                 cx.bump(S::lib_panics);
                 cx.chk(P03, c != N, "with_capacity", || format!("with_capacity({c}) panicked for N={N}"));
             }
@@ -746,9 +746,12 @@ impl<'c, KD: Kind, const N: usize> MapEng<'c, KD, N> {
         if len > N && overflow_at.is_none() {
             cx.bump(S::bulk_longer_than_n);
         }
+        // does a present key arrive again after the container became full? (C03's clause
+        // "replacing the value of a present key succeeds on a full container")
+        let mut repeat_after_full = false;
         if overflow_at.is_none() && want.len() == N && N > 0 {
-            // a repeat of the first key after the container became full?
             let full_at = want.iter().map(|e| e.1).max().unwrap_or(0);
+            repeat_after_full = keys.iter().enumerate().any(|(i, _)| i > full_at);
             if keys.iter().enumerate().any(|(i, k)| i > full_at && *k == keys[0]) {
                 cx.bump(S::bulk_repeat_after_full);
             }
@@ -840,18 +843,17 @@ impl<'c, KD: Kind, const N: usize> MapEng<'c, KD, N> {
                 }
                 self.slots[1] = Some(ns);
             }
-            Err(Pk::Overflow) => {
+            Err(p) if p != Pk::Injected => {
+                // any panic raised by the library counts as a rejection; it is spurious when every
+                // distinct key fits (C16, and C03 when a present key arrived again on the full map)
                 cx.bump(S::lib_panics);
                 if !liar {
-                    cx.chk(P16.and(Prop::C03), overflow_at.is_some(), "spurious-overflow", || format!("{} panicked although only {} distinct keys were supplied to a container of {N}", names[sub], want.len()));
+                    let owner = if repeat_after_full { P16.and(Prop::C03) } else if overflow_at.is_some() { P16.and(Prop::C03) } else { P16 };
+                    let pn = p.name();
+                    cx.chk(owner, overflow_at.is_some(), "spurious-overflow", || format!("{} panicked ({pn}) although only {} distinct keys were supplied to a container of {N}", names[sub], want.len()));
                 }
             }
-            Err(p) => {
-                // any other library panic: spurious when every distinct key fits (C16; and C03's
-                // "replacing the value of a present key succeeds on a full container")
-                let owner = if overflow_at.is_none() { P16.and(Prop::C03) } else { P16 };
-                fault |= unexpected(cx, liar, owner, &p)
-            }
+            Err(p) => fault |= unexpected(cx, liar, P16, &p),
         }
         self.note_fault(fault, true);
         self.cur_target = 1;
